@@ -2,6 +2,8 @@ package main
 
 import (
 	"fmt"
+	"os"
+	"runtime/debug"
 	"go/ast"
 	"go/parser"
 	"go/types"
@@ -149,6 +151,9 @@ func (w *World) genFunc(fn *ssa.Function, c *FuncContract, base string) (g *GenU
 	defer func() {
 		if r := recover(); r != nil {
 			g.Err = fmt.Sprint(r)
+			if os.Getenv("GOVC_DEBUG") != "" {
+				fmt.Fprintf(os.Stderr, "%s\n", debug.Stack())
+			}
 		}
 	}()
 	resetRunGlobals()
